@@ -356,6 +356,10 @@ func checkC06(w *World, r *Report) {
 	readerLimitRule(w, r, "C06.no-limit")
 	atomSiteRule(w, r, "C06.atom-site")
 	keyContentRule(w, r, "C06.key-content")
+	collectionReaderErrorsRule(w, r, "C06.collection-errors", w.collectionReaders())
+	textVerdictRule(w, r, "C06.text-verdict")
+	// a text means the same whenever and beside whatever else it is read: the reader keeps no state
+	noGlobalWritesRule(w, r, "C06.read-stateless", "the reader", append([]*ssa.Function{w.Fn("", "READ"), w.Fn("", "READWithPreamble")}, w.pkgFuncs("reader")...))
 	// "yields a value equal to the original": the equality the round trip is judged by
 	r.include("C06.equal-", "C14.", "the value read back must be equal to the original under =, so = must be structural equality on data", checkC14, func(rule string) bool {
 		switch rule {
@@ -684,6 +688,7 @@ func checkC16(w *World, r *Report) {
 	r.rule("C16.leftover", "on the success path of Read_str the comparison of the token cursor with the token count dominates the return of the value")
 	r.rule("C16.eof-site", "the EOF error is raised exactly where the token stream ends inside an open bracket (the nil-peek branch of the element loop) with that call's own closer")
 	tokenVerbatimRule(w, r, "C16.token-text")
+	textIntactRule(w, r, "C16.text-intact")
 	singleFormRule(w, r, "C16.single-form")
 	r.rule("C16.join", "the REPL joins the lines of a multi-line entry with a line break (comments end at the end of a line, so any other separator lets a comment swallow the following lines)")
 	readList := w.Fn("reader", "read_list")
@@ -706,12 +711,42 @@ func checkC16(w *World, r *Report) {
 			}
 		}
 	}
+	// read_list and the functions that exist only for it (every caller is read_list or another of them): the
+	// element loop may live in such a helper
+	listGroup := map[*ssa.Function]bool{readList: true}
+	for changed := true; changed; {
+		changed = false
+		for _, fn := range w.pkgFuncs("reader") {
+			if listGroup[fn] || fn.Parent() != nil {
+				continue
+			}
+			sites := newEngine(w).callSites(fn)
+			all := len(sites) > 0
+			for _, cs := range sites {
+				if !listGroup[cs.Parent()] {
+					all = false
+				}
+			}
+			if all {
+				listGroup[fn] = true
+				changed = true
+			}
+		}
+	}
+	calledByGroup := func(fn *ssa.Function) bool {
+		for g := range listGroup {
+			if len(staticCallsTo(g, fn)) > 0 {
+				return true
+			}
+		}
+		return false
+	}
 	// a collection exists only after read_list matched its brackets
 	r.rule("C16.matched", "the functions that read a bracketed collection (the callers of read_list in the reader) answer successfully only after their read_list call: read_list is the one place where the token that closes a collection is compared with the closer of the bracket that opened it, so no collection is accepted on a closing token of another kind")
 	nm := 0
 	for _, fn := range w.pkgFuncs("reader") {
 		calls := staticCallsTo(fn, readList)
-		if len(calls) == 0 || fn == readList || len(staticCallsTo(readList, fn)) > 0 {
+		if len(calls) == 0 || listGroup[fn] || calledByGroup(fn) {
 			continue // the dispatcher read_list itself calls for each element reads atoms and reader macros too
 		}
 		for _, rt := range (&evalModel{}).returns(fn) {
@@ -736,16 +771,39 @@ func checkC16(w *World, r *Report) {
 	// template: errors.New(a + end + b) in read_list where end is parameter 2
 	var tmplParts []ssa.Value
 	var tmplCall *ssa.Call
-	for _, b := range readList.Blocks {
-		for _, in := range b.Instrs {
-			c, ok := in.(*ssa.Call)
-			if !ok || c.Call.StaticCallee() == nil || c.Call.StaticCallee().Name() != "New" || c.Call.StaticCallee().Pkg.Pkg.Path() != "errors" {
-				continue
+	// the closer: read_list's parameter, or the parameter of a helper of read_list that is handed it
+	closerVals := map[ssa.Value]bool{readList.Params[2]: true}
+	for changed := true; changed; {
+		changed = false
+		for g := range listGroup {
+			for _, b := range g.Blocks {
+				for _, in := range b.Instrs {
+					c, ok := in.(*ssa.Call)
+					if !ok || !listGroup[c.Call.StaticCallee()] {
+						continue
+					}
+					for i, a := range c.Call.Args {
+						if closerVals[a] && i < len(c.Call.StaticCallee().Params) && !closerVals[c.Call.StaticCallee().Params[i]] {
+							closerVals[c.Call.StaticCallee().Params[i]] = true
+							changed = true
+						}
+					}
+				}
 			}
-			parts := concatParts(c.Call.Args[0])
-			for _, p := range parts {
-				if p == ssa.Value(readList.Params[2]) {
-					tmplParts, tmplCall = parts, c
+		}
+	}
+	for g := range listGroup {
+		for _, b := range g.Blocks {
+			for _, in := range b.Instrs {
+				c, ok := in.(*ssa.Call)
+				if !ok || c.Call.StaticCallee() == nil || c.Call.StaticCallee().Name() != "New" || c.Call.StaticCallee().Pkg.Pkg.Path() != "errors" {
+					continue
+				}
+				parts := concatParts(c.Call.Args[0])
+				for _, p := range parts {
+					if closerVals[p] && (tmplCall == nil || strings.Contains(strings.Join(constParts(parts), ""), "EOF")) {
+						tmplParts, tmplCall = parts, c
+					}
 				}
 			}
 		}
@@ -757,7 +815,7 @@ func checkC16(w *World, r *Report) {
 	inst := func(cl string) string {
 		s := ""
 		for _, p := range tmplParts {
-			if p == ssa.Value(readList.Params[2]) {
+			if closerVals[p] {
 				s += cl
 			} else if k, ok := constString(p); ok {
 				s += k
@@ -908,7 +966,7 @@ func checkC16(w *World, r *Report) {
 					np++
 					t := d.Succs[0]
 					ret, isRet := t.Instrs[len(t.Instrs)-1].(*ssa.Return)
-					okSame := isRet && len(ret.Results) == 2 && ret.Results[1] == ssa.Value(errEx)
+					okSame := isRet && len(ret.Results) >= 2 && ret.Results[len(ret.Results)-1] == ssa.Value(errEx)
 					r.check(okSame, "C16.type", fn, "error of nested "+callee.Name(), c.Pos(), "returned unchanged", "the error of the nested read is replaced: the innermost open bracket's message does not surface")
 				}
 			}
@@ -1016,7 +1074,7 @@ func checkC16(w *World, r *Report) {
 		}
 	}
 	inLoop := false
-	for _, l := range naturalLoops(readList) {
+	for _, l := range naturalLoops(tmplCall.Parent()) { // read_list, or the helper of it that holds the element loop
 		if l.header.Dominates(tmplCall.Block()) {
 			inLoop = true
 		}
@@ -1254,6 +1312,9 @@ func checkC15(w *World, r *Report) {
 	// keyword values (and keyword keys of nested maps) travel through the preamble as printed text: the
 	// encoding of keywords must be injective for them to come back as they were
 	keywordInjectiveRule(w, r, "C15.keyword")
+	textVerdictRule(w, r, "C15.text-verdict")
+	// a text with a preamble means what it says, whatever was read before it and beside it
+	noGlobalWritesRule(w, r, "C15.read-stateless", "reading a text with its preamble", append([]*ssa.Function{w.Fn("", "READ"), w.Fn("", "READWithPreamble"), w.Fn("", "AddPreamble")}, w.pkgFuncs("reader")...))
 	keyContentRule(w, r, "C15.key-content")
 	readerLimitRule(w, r, "C15.no-limit")
 	printerOneLineRule(w, r, "C15.one-line")
@@ -1426,15 +1487,43 @@ func checkC15(w *World, r *Report) {
 	for _, b := range rwp.Blocks {
 		for _, in := range b.Instrs {
 			c, ok := in.(*ssa.Call)
-			if !ok || c.Call.StaticCallee() == nil || c.Call.StaticCallee().Name() != "Read_str" {
+			if !ok || c.Call.StaticCallee() == nil {
 				continue
 			}
-			if isNilConst(c.Call.Args[2]) {
+			// the reader's entry point, or a function of the module that hands its own parameters on to it
+			var textArg, tableArg ssa.Value
+			if callee := c.Call.StaticCallee(); callee.Name() == "Read_str" {
+				textArg, tableArg = c.Call.Args[0], c.Call.Args[2]
+			} else if inModule(callee) && callee != rwp {
+				for _, hb := range callee.Blocks {
+					for _, hin := range hb.Instrs {
+						hc, ok := hin.(*ssa.Call)
+						if !ok || hc.Call.StaticCallee() == nil || hc.Call.StaticCallee().Name() != "Read_str" {
+							continue
+						}
+						for i, p := range callee.Params {
+							if i >= len(c.Call.Args) {
+								continue
+							}
+							if hc.Call.Args[0] == ssa.Value(p) {
+								textArg = c.Call.Args[i]
+							}
+							if hc.Call.Args[2] == ssa.Value(p) {
+								tableArg = c.Call.Args[i]
+							}
+						}
+					}
+				}
+			}
+			if textArg == nil || tableArg == nil {
+				continue
+			}
+			if isNilConst(tableArg) {
 				continue // the per-line read of a value
 			}
 			nstop++
-			parts := concatParts(c.Call.Args[0])
-			d := describeVal(e, c.Call.Args[0], 0)
+			parts := concatParts(textArg)
+			d := describeVal(e, textArg, 0)
 			switch len(parts) {
 			case 1:
 				// remaining text: the `after` part of the cut
@@ -1814,4 +1903,60 @@ func printerOneLineRule(w *World, r *Report, rule string) {
 		}
 	}
 	r.floor(rule, "string constants with line breaks in the printer", n, 1)
+}
+
+func constParts(parts []ssa.Value) []string {
+	var out []string
+	for _, p := range parts {
+		if k, ok := constString(p); ok {
+			out = append(out, k)
+		}
+	}
+	return out
+}
+
+// collectionReaders: the reader functions for bracketed collections: callers of the bracket matcher
+// (read_list) that are neither part of it (its private helpers) nor called by it (the dispatcher).
+func (w *World) collectionReaders() []*ssa.Function {
+	readList := w.Fn("reader", "read_list")
+	if readList == nil {
+		return nil
+	}
+	group := map[*ssa.Function]bool{readList: true}
+	eng := newEngine(w)
+	for changed := true; changed; {
+		changed = false
+		for _, fn := range w.pkgFuncs("reader") {
+			if group[fn] || fn.Parent() != nil {
+				continue
+			}
+			sites := eng.callSites(fn)
+			all := len(sites) > 0
+			for _, cs := range sites {
+				if !group[cs.Parent()] {
+					all = false
+				}
+			}
+			if all {
+				group[fn] = true
+				changed = true
+			}
+		}
+	}
+	var out []*ssa.Function
+	for _, fn := range w.pkgFuncs("reader") {
+		if len(staticCallsTo(fn, readList)) == 0 || group[fn] {
+			continue
+		}
+		called := false
+		for g := range group {
+			if len(staticCallsTo(g, fn)) > 0 {
+				called = true
+			}
+		}
+		if !called {
+			out = append(out, fn)
+		}
+	}
+	return out
 }
